@@ -126,7 +126,7 @@ func main() {
 			if len(ws) == 0 {
 				continue
 			}
-			if ws[0] != suite {
+			if ws[0] != suite && !(ws[0] == "q" && suite == "rt") {
 				continue // a corpus file may be shared; each suite replays its own kind
 			}
 			switch ws[0] {
@@ -137,6 +137,12 @@ func main() {
 					continue
 				}
 				runRT(out, c)
+			case "q":
+				if c, ok := parseQ(ws[1:]); ok {
+					runQ(out, c)
+				} else {
+					out.Line("# bad corpus line (q needs all twelve parameters): %s", line)
+				}
 			case "eq":
 				replayEq(out, ws[1:], line)
 			case "str":
@@ -160,7 +166,11 @@ func main() {
 		r := base.Fork(uint64(k))
 		switch suite {
 		case "rt":
-			runRT(out, genRT(r, k))
+			if r.Chance(1, 16) {
+				runQ(out, genQ(r))
+			} else {
+				runRT(out, genRT(r, k))
+			}
 		case "eq":
 			genEq(out, r, k)
 		case "str":
